@@ -485,6 +485,21 @@ impl DtlsInner {
             match DtlsRecord::decode(&mut data) {
                 Ok(None) => break,
                 Ok(Some(record)) => {
+                    // Epoch 0 is the unprotected handshake epoch. Once keys exist,
+                    // application data and alerts are only valid under those keys, and
+                    // once the handshake is over nothing is valid in epoch 0 any more:
+                    // such records are unauthenticated and are silently discarded.
+                    if record.epoch == 0 && ctx.session_keys.is_some() {
+                        let handshaking = matches!(*self.state.lock(), DtlsState::Handshaking);
+                        if !handshaking
+                            || matches!(
+                                record.content_type,
+                                ContentType::ApplicationData | ContentType::Alert
+                            )
+                        {
+                            continue;
+                        }
+                    }
                     let payload = match self.try_decrypt_record(&record, ctx, is_client) {
                         Ok(p) => p,
                         Err(e) => {
